@@ -35,8 +35,8 @@ def run_children(R, hexe, cases, out, watchdog_ms=5000):
             resource.setrlimit(resource.RLIMIT_AS, (AS_LIMIT, AS_LIMIT))
         try:
             p = subprocess.run([hexe, "-test.run", "^TestChild$", "-test.count=1", "-test.timeout=0"], env=env, cwd=cc.rundir(R),
-                               preexec_fn=limit, stdout=subprocess.PIPE, stderr=subprocess.STDOUT, timeout=1800, text=True, errors="replace")
-            rc, o = p.returncode, p.stdout
+                               preexec_fn=limit, stdout=subprocess.PIPE, stderr=subprocess.STDOUT, timeout=None, text=True, errors="replace")
+            rc, o = p.returncode, p.stdout      # no wall-clock limit here: the child stops itself (CPU budget per call / END)
         except subprocess.TimeoutExpired as e:
             rc, o = 124, (e.stdout or "")
         # what was the last started case?
@@ -56,6 +56,13 @@ def run_children(R, hexe, cases, out, watchdog_ms=5000):
         if last_s is None:
             R.proof_problems.append("C04 child could not start: " + o[-400:])
             break
+        if rc == 4:
+            # wall-clock expiry in one call while its CPU budget was not used up (machine load, stopped process, ...): no
+            # verdict from a clock (docs/C16.md) - a note, the case is recorded as inconclusive and the run goes on
+            msg = "C04 child: case %d spent more than the wall-clock note limit in one call without using up its CPU budget; inconclusive, skipped" % last_s
+            R.notes.append(msg); R.coverage.setdefault("inconclusive", []).append(msg); R.log(msg)
+            start = last_s + 1
+            continue
         kind = "timeout" if rc == 3 else ("oom" if ("out of memory" in o or "cannot allocate" in o) else ("fatal" if rc != 0 else "exit"))
         if last_done == last_s:
             # died between cases: treat as failure of the harness itself
